@@ -914,3 +914,45 @@ def struct_view(F, t, adt_path):
     out = dict(basef)
     out.update(ups)
     return out
+
+
+SVD_DIRECT = ("svd", "svd_unordered", "new", "new_unordered")
+SVD_TRY = ("try_svd", "try_svd_unordered", "try_new", "try_new_unordered")
+
+
+def svd_ctor_term(t):
+    """(decomposed matrix, compute_u, compute_v) when `t` is the value of one of nalgebra's SVD entry points
+    (`m.svd(u,v)`, `SVD::new(m,u,v)`, the unordered ones, or the unwrapped/`?`-ed result of a `try_` one), else None"""
+    if not isinstance(t, tuple) or not t:
+        return None
+    tried = False
+    if t[0] == "payload" and len(t) > 2 and t[2] == "ok":
+        t, tried = t[1], True
+    if t[0] != "call" or len(t[3]) < 3:
+        return None
+    last = t[1].rsplit("::", 1)[-1]
+    if last in ("new", "new_unordered", "try_new", "try_new_unordered") and "SVD" not in t[1] and "svd" not in t[1]:
+        return None
+    if (last in SVD_DIRECT and not tried) or (last in SVD_TRY and tried):
+        return t[3][0], t[3][1], t[3][2]
+    return None
+
+
+def svd_tuning(t):
+    """(eps, max_niter) terms of a `try_` SVD entry point, None for the ones that use the library's tolerance"""
+    if isinstance(t, tuple) and t and t[0] == "payload":
+        t = t[1]
+    if isinstance(t, tuple) and t and t[0] == "call" and t[1].rsplit("::", 1)[-1] in SVD_TRY and len(t[3]) >= 5:
+        return t[3][-2], t[3][-1]
+    return None
+
+
+def input_dependent(t):
+    """does the term mention a parameter, a field, an element or an unknown (anything but a constant expression)"""
+    if isinstance(t, (frozenset, list)):
+        return any(input_dependent(x) for x in t)
+    if not isinstance(t, tuple):
+        return False
+    if t and t[0] in ("param", "field", "unknown", "elem", "phi", "mutated", "iv"):
+        return True
+    return any(input_dependent(x) for x in t)
